@@ -326,8 +326,11 @@ pub fn run(ctx: &Ctx) -> i32 {
   let t = thresholds();
   for k in 1..30 {
     total.stratum("claim3-thresholds", 1, 1);
-    if !(t[k] < t[k - 1] && t[k] > 0.0) {
-      total.viol(Viol { api: "best_starting_depth".into(), kind: "thresholds-not-decreasing".into(), case: json!({"claim": 3, "k": k}), expected: "strictly decreasing limits".into(), actual: format!("T[{}] = {:e}, T[{}] = {:e}", k - 1, t[k - 1], k, t[k]) });
+    // strictly decreasing, and halving from one depth to the next (a depth never skipped: two
+    // recovered limits that coincide mean that a depth is never returned)
+    let ratio = t[k] / t[k - 1];
+    if !(t[k] < t[k - 1] && t[k] > 0.0 && ratio >= 0.40 && ratio <= 0.55) {
+      total.viol(Viol { api: "best_starting_depth".into(), kind: "thresholds-not-decreasing".into(), case: json!({"claim": 3, "k": k}), expected: "strictly decreasing limits, each 0.40 .. 0.55 times the previous one (every depth 0..=29 is returned for some radius)".into(), actual: format!("T[{}] = {:e}, T[{}] = {:e}", k - 1, t[k - 1], k, t[k]) });
     }
   }
   for k in 0..30usize {
